@@ -4,6 +4,8 @@ import Ptn.C12.Reduced
 import Ptn.C12.Rank
 import Ptn.C12.RankBridge
 import Ptn.C12.NumMain
+import Ptn.C12.NumRank
+import Ptn.C12.NumNZ
 import Mathlib.LinearAlgebra.Matrix.Rank
 import Ptn.C01.Cut
 import Ptn.C01.Fill
@@ -277,6 +279,139 @@ theorem sge_numeric_bond_no_zero_lines_partial (M : Ptn.C13.EMat) (n : Nat) (hpo
     sge_numeric_bond_eq_rank_partial M n hpos hrect hnum L A R h (by omega) hfr
   exact ⟨g, Mt, cu, cv, h1, h2, h4, h5, h6⟩
 
+/-- **rank M' = rank Γ** for every numeric rectangular `Γ` of every size (no hypothesis on the reduced
+    matrix): over ℚ the matrix returned by the model of `gaussian_elimination` has the rank of the
+    input.  Proof (`NumRank.lean`): the rank of the zero-padded `m × n` box of the current matrix is an
+    invariant of the run - `row_swap` permutes rows, the inner loop of `row_elimination` replaces every
+    row `k ≠ i` by `row k − (A[k][i]/pivot) · row i` (each matrix has its rows in the row space of the
+    other), the rows deleted afterwards are zero, `deparallelize_rows` deletes rows that are multiples of
+    a row that stays (the partner `i < j` is never flagged itself); columns alike, through
+    `Matrix.rank_transpose`.  Closes gap (2) of `sge_numeric_bond_eq_rank_partial`. -/
+theorem sge_numeric_rank_eq_reduced (M : Ptn.C13.EMat) (n : Nat) (hpos : 0 < M.length)
+    (hrect : Ptn.C13.Rect M n) (hnum : NumM M) (L : Ptn.C13.RMat) (A : Ptn.C13.EMat) (R : Ptn.C13.RMat)
+    (h : Ptn.C13.gaussianElimination M = .ok L A R) :
+    (numMat A A.length R.length).rank = (numMat M M.length n).rank :=
+  rank_numMat_eq M n hpos hrect hnum L A R h
+
+/-- **Bond of a numeric cut = rank Γ, hypothesis on the output only.**  If the reduced matrix `M'` has
+    no zero row and no zero column, the model of `minimum_vertex_cover` on the support graph of `M'`
+    returns a cover with exactly `rank Γ` vertices.  (Missing for `sge_numeric_bond_eq_rank`: only that
+    `M'` has no zero line when `Γ` has none.) -/
+theorem sge_numeric_bond_eq_rank_of_output_partial (M : Ptn.C13.EMat) (n : Nat) (hpos : 0 < M.length)
+    (hrect : Ptn.C13.Rect M n) (hnum : NumM M) (L : Ptn.C13.RMat) (A : Ptn.C13.EMat) (R : Ptn.C13.RMat)
+    (h : Ptn.C13.gaussianElimination M = .ok L A R)
+    (hrows : ∀ r, r < A.length → ∃ c, nz A r c = true)
+    (hcols : ∀ c, c < R.length → ∃ r, nz A r c = true) :
+    ∃ g Mt cu cv, Ptn.C14.mkGraph A.length R.length (suppEdges A) = some g ∧
+      Ptn.C14.minimumVertexCover g = .ok (Mt, cu, cv) ∧
+      cu.length + cv.length = (numMat M M.length n).rank := by
+  obtain ⟨g, Mt, cu, cv, h1, h2, _, _, h5⟩ :=
+    sge_numeric_bond_no_zero_lines_partial M n hpos hrect hnum L A R h hrows hcols
+  exact ⟨g, Mt, cu, cv, h1, h2, h5 (sge_numeric_rank_eq_reduced M n hpos hrect hnum L A R h).le⟩
+
+/-- **No zero line in, no zero line out.**  If the numeric rectangular `Γ` has no zero row and no zero
+    column, the reduced matrix `M'` returned by the model of `gaussian_elimination` has none either.
+    Proof (`NumNZ.lean`): invariant of the run.  Row operations are invertible, so a non-zero column stays
+    non-zero; a row that becomes zero in the inner loop of `row_elimination` is flagged (the zero flag
+    of `_row_add` is complete on numeric matrices: `rowAdd_flag_complete`) and deleted at the end of
+    the same pass; `deparallelize_rows` keeps the partner of every deleted row, which carries a non-zero
+    entry in the same columns.  Columns alike.  Closes gap (1) of `sge_numeric_fully_reduced_partial`. -/
+theorem sge_numeric_no_zero_lines (M : Ptn.C13.EMat) (n : Nat) (hpos : 0 < M.length)
+    (hrect : Ptn.C13.Rect M n) (hnum : NumM M)
+    (hrows : ∀ r, r < M.length → ∃ c, nz M r c = true)
+    (hcols : ∀ c, c < n → ∃ r, nz M r c = true)
+    (L : Ptn.C13.RMat) (A : Ptn.C13.EMat) (R : Ptn.C13.RMat)
+    (h : Ptn.C13.gaussianElimination M = .ok L A R) :
+    (∀ r, r < A.length → ∃ c, nz A r c = true) ∧ (∀ c, c < R.length → ∃ r, nz A r c = true) := by
+  have hnumA : NumM A := Ptn.C13.sge_no_new_symbols M (fun _ => False) hnum L A R h
+  obtain ⟨h1, h2⟩ := no_zero_lines_of_ok M n hpos hrect hnum
+    (fun r hr => let ⟨c, hc⟩ := hrows r hr; ⟨c, (nz_iff_val hnum r c).1 hc⟩)
+    (fun c hc => let ⟨r, hr⟩ := hcols c hc; ⟨r, (nz_iff_val hnum r c).1 hr⟩) L A R h
+  exact ⟨fun r hr => let ⟨c, hc⟩ := h1 r hr; ⟨c, (nz_iff_val hnumA r c).2 hc⟩,
+    fun c hc => let ⟨r, hr⟩ := h2 c hc; ⟨r, (nz_iff_val hnumA r c).2 hr⟩⟩
+
+/-- **The reduced matrix of a numeric `Γ` without zero row / column is fully reduced**: square,
+    non-zero exactly on the diagonal, of size `rank Γ`. -/
+theorem sge_numeric_fully_reduced (M : Ptn.C13.EMat) (n : Nat) (hpos : 0 < M.length)
+    (hrect : Ptn.C13.Rect M n) (hnum : NumM M)
+    (hrows : ∀ r, r < M.length → ∃ c, nz M r c = true)
+    (hcols : ∀ c, c < n → ∃ r, nz M r c = true)
+    (L : Ptn.C13.RMat) (A : Ptn.C13.EMat) (R : Ptn.C13.RMat)
+    (h : Ptn.C13.gaussianElimination M = .ok L A R) :
+    A.length = R.length ∧ (∀ i j, nz A i j = true ↔ (i = j ∧ i < A.length)) ∧ FullyReduced A ∧
+    A.length = (numMat M M.length n).rank := by
+  obtain ⟨h1, h2⟩ := sge_numeric_no_zero_lines M n hpos hrect hnum hrows hcols L A R h
+  obtain ⟨hsq, hd, hfr⟩ := sge_numeric_fully_reduced_partial M n hpos hrect hnum L A R h h1 h2
+  refine ⟨hsq, hd, hfr, ?_⟩
+  have hnumA : NumM A := Ptn.C13.sge_no_new_symbols M (fun _ => False) hnum L A R h
+  have hrk := sge_numeric_rank_eq_reduced M n hpos hrect hnum L A R h
+  rw [← hrk, ← hsq]
+  -- the rank of a square matrix that is non-zero exactly on the diagonal
+  have hdiag : numMat A A.length A.length = Matrix.diagonal fun i => numMat A A.length A.length i i := by
+    ext i j
+    by_cases hij : i = j
+    · subst hij; simp
+    · rw [Matrix.diagonal_apply_ne _ hij]
+      by_contra hne
+      have := (hd i j).1 ((nz_iff_numMat hnumA _ _ i j).2 hne)
+      exact hij (Fin.ext this.1)
+  rw [hdiag, Matrix.rank_diagonal]
+  have hall : ∀ i : Fin A.length, numMat A A.length A.length i i ≠ 0 :=
+    fun i => (nz_iff_numMat hnumA _ _ i i).1 ((hd i i).2 ⟨rfl, i.2⟩)
+  rw [Fintype.card_congr (Equiv.subtypeUnivEquiv hall)]
+  simp
+
+/-- **Bond of a numeric cut = rank Γ.**  For every numeric rectangular `Γ` (any size, at least one
+    row) without zero row and without zero column: the model of `gaussian_elimination` (property C13)
+    returns a triple `(L, M', R)`, and the model of `minimum_vertex_cover` (property C14) on
+    `BipartiteGraph(len(M'), len(M'[0]), supp M')` returns a cover whose number of vertices - the bond
+    dimension the cut creates, `bond_eq_cover` - is exactly `Matrix.rank Γ` over ℚ, the minimum possible
+    (`bond_ge_schmidt_rank`, `cover_ge_rank`). -/
+theorem sge_numeric_bond_eq_rank (M : Ptn.C13.EMat) (n : Nat) (hpos : 0 < M.length)
+    (hrect : Ptn.C13.Rect M n) (hnum : NumM M)
+    (hrows : ∀ r, r < M.length → ∃ c, nz M r c = true)
+    (hcols : ∀ c, c < n → ∃ r, nz M r c = true) :
+    ∃ L A R, Ptn.C13.gaussianElimination M = .ok L A R ∧
+      ∃ g Mt cu cv, Ptn.C14.mkGraph A.length R.length (suppEdges A) = some g ∧
+        Ptn.C14.minimumVertexCover g = .ok (Mt, cu, cv) ∧
+        cu.length + cv.length = (numMat M M.length n).rank := by
+  obtain ⟨L, A, R, h⟩ := Ptn.C13.sge_total M n hpos hrect (numM_nesm hnum) (numM_nzm hnum)
+  obtain ⟨h1, h2⟩ := sge_numeric_no_zero_lines M n hpos hrect hnum hrows hcols L A R h
+  exact ⟨L, A, R, h, sge_numeric_bond_eq_rank_of_output_partial M n hpos hrect hnum L A R h h1 h2⟩
+
+/-- **… and the keep-the-better rule does not change it.**  `_apply_bipartite_to_gamma_u` also computes
+    the minimum cover of the support of the *unreduced* `Γ` and keeps it if the cover of `supp M'` is not
+    strictly smaller.  Under the hypotheses of `sge_numeric_bond_eq_rank` the number of vertices of the
+    cover it keeps - the bond dimension of the cut - is `Matrix.rank Γ` in both branches (a cover of
+    `supp Γ` has at least `rank Γ` vertices). -/
+theorem sge_numeric_bond_keep_better (M : Ptn.C13.EMat) (n : Nat) (hpos : 0 < M.length)
+    (hrect : Ptn.C13.Rect M n) (hnum : NumM M)
+    (hrows : ∀ r, r < M.length → ∃ c, nz M r c = true)
+    (hcols : ∀ c, c < n → ∃ r, nz M r c = true) :
+    ∃ L A R, Ptn.C13.gaussianElimination M = .ok L A R ∧
+      ∃ g Mt cu cv g0 Mt0 cu0 cv0,
+        Ptn.C14.mkGraph A.length R.length (suppEdges A) = some g ∧
+        Ptn.C14.minimumVertexCover g = .ok (Mt, cu, cv) ∧
+        Ptn.C14.mkGraph M.length n (suppEdges M) = some g0 ∧
+        Ptn.C14.minimumVertexCover g0 = .ok (Mt0, cu0, cv0) ∧
+        (if cu.length + cv.length ≥ cu0.length + cv0.length then cu0.length + cv0.length
+          else cu.length + cv.length) = (numMat M M.length n).rank := by
+  obtain ⟨L, A, R, h, g, Mt, cu, cv, hg, hmvc, hsz⟩ :=
+    sge_numeric_bond_eq_rank M n hpos hrect hnum hrows hcols
+  have hn : 0 < n := by
+    obtain ⟨c, hc⟩ := hrows 0 hpos
+    have := (nz_in_range hrect hc).2
+    omega
+  have hw : Ptn.C13.width M = n := Ptn.C13.width_of_rect hrect hpos
+  obtain ⟨g0, Mt0, cu0, cv0, hg0, hmvc0, _, _, _, hcov0, _⟩ :=
+    Ptn.C14.mvc_correct_input M.length n (suppEdges M) hpos hn (fun p hp => by
+      have := (mem_suppEdges M p).1 hp
+      exact ⟨this.1, hw ▸ this.2.1⟩)
+  have hge := rank_le_list_cover M hnum cu0 cv0 hcov0
+  rw [hw] at hge
+  refine ⟨L, A, R, h, g, Mt, cu, cv, g0, Mt0, cu0, cv0, hg, hmvc, hg0, hmvc0, ?_⟩
+  split <;> omega
+
 /-- **The reduced matrix of a numeric `Γ` is not always fully reduced**: `Γ` (3 × 4, rank 2, two zero
     columns) is returned with two non-zero entries in column 0 - the pivot search only looks at the
     diagonal position and below / to the right of it, and the fixed-point loop stops because no row or
@@ -353,6 +488,16 @@ example : (∀ r, r < 2 → ∃ c, nz [[.num 1, .num 0], [.num 0, .num 1]] r c =
   · have : ∀ r < 2, nz [[.num 1, .num 0], [.num 0, .num 1]] r r = true := by decide +kernel
     exact this r hr
   · have : ∀ c < 2, nz [[.num 1, .num 0], [.num 0, .num 1]] c c = true := by decide +kernel
+    exact this c hc
+
+-- `sge_numeric_no_zero_lines`, `sge_numeric_fully_reduced`, `sge_numeric_bond_eq_rank`: `exRank2`
+-- (3 × 3, rank 2) has no zero row and no zero column; its reduced matrix is the 2 × 2 identity (above)
+example : (∀ r, r < exRank2.length → ∃ c, nz exRank2 r c = true) ∧
+    (∀ c, c < 3 → ∃ r, nz exRank2 r c = true) := by
+  refine ⟨fun r hr => ⟨0, ?_⟩, fun c hc => ⟨1, ?_⟩⟩
+  · have : ∀ r < 3, nz exRank2 r 0 = true := by decide +kernel
+    exact this r hr
+  · have : ∀ c < 3, nz exRank2 1 c = true := by decide +kernel
     exact this c hc
 
 -- `rank_of_fully_reduced`: a 2 × 3 partial permutation pattern
